@@ -10,6 +10,7 @@ records of their keyword arguments (assumed).
 import z3
 import cobra  # noqa
 from .common import *  # noqa
+from . import c15_dictlist  # noqa  (DictList contracts used at call sites)
 from . import c04_status as C4
 from pyvc.values import VReal
 from pyvc.state import alloc_list
